@@ -457,7 +457,45 @@ func registerIntrinsics(e *Engine) {
 	// errors.Is on the error values of the model: identity with the target (fmt.Errorf is opaque in
 	// the engine, so wrapped chains do not exist; an opaque error matches nothing but itself)
 	I["errors.Is"] = func(e *Engine, st *State, c ssa.CallInstruction, a []Value) []*State {
-		e.setResult(st, c, e.valueEq(a[0], a[1]))
+		res := e.valueEq(a[0], a[1])
+		if inner, ok := e.unwrapModelError(st, a[0]); ok {
+			res = e.TT.Or(res, e.valueEq(inner, a[1]))
+		}
+		e.setResult(st, c, res)
+		return nil
+	}
+	// errors.As on the error values of the model: the dynamic type of the error (or of what the model's
+	// one wrapper, *fs.PathError, wraps) is the element type of the target
+	I["errors.As"] = func(e *Engine, st *State, c ssa.CallInstruction, a []Value) []*State {
+		tgt, ok := a[1].(IfaceV)
+		if !ok || tgt.T == nil {
+			e.fail("errors.As with a nil target")
+		}
+		tp, ok := tgt.T.(*types.Pointer)
+		if !ok {
+			e.fail("errors.As target is not a pointer")
+		}
+		cur := a[0]
+		for depth := 0; depth < 3; depth++ {
+			iv, ok := cur.(IfaceV)
+			if !ok || iv.T == nil {
+				break
+			}
+			if types.Identical(iv.T, tp.Elem()) {
+				e.store(st, tgt.V.(PtrV), iv.V)
+				e.setResult(st, c, e.TT.True)
+				return nil
+			}
+			if _, isIface := tp.Elem().Underlying().(*types.Interface); isIface {
+				e.fail("errors.As with an interface target")
+			}
+			next, ok := e.unwrapModelError(st, cur)
+			if !ok {
+				break
+			}
+			cur = next
+		}
+		e.setResult(st, c, e.TT.False)
 		return nil
 	}
 	I["errors.New"] = func(e *Engine, st *State, c ssa.CallInstruction, a []Value) []*State {
@@ -1000,12 +1038,46 @@ func (e *Engine) cutOutside(st *State, why string) {
 	st.done = true
 }
 
-// closedFileError is what the file model returns for an operation on a closed file: the value of
-// os.ErrClosed when that global is registered (so that errors.Is(err, os.ErrClosed) holds, as it
-// does for the *PathError of the real library), otherwise an opaque error.
+// closedFileError is what the file model returns for an operation on a closed file: like the
+// real library a *fs.PathError whose Err is os.ErrClosed (when that global is registered),
+// otherwise an opaque error.
 func (e *Engine) closedFileError(st *State) Value {
 	if _, ok := e.NativeGlob["os.ErrClosed"]; ok {
-		return e.load(st, e.globalPtrByName(st, "os", "ErrClosed"))
+		inner := e.load(st, e.globalPtrByName(st, "os", "ErrClosed"))
+		if t := e.lookupNamedOpt("io/fs", "PathError"); t != nil {
+			id := e.alloc(st, StructV{F: []Value{e.ConcreteStr("read"), e.ConcreteStr("verif-file"), inner}})
+			return IfaceV{T: types.NewPointer(t), V: PtrV{Obj: id}}
+		}
+		return inner
 	}
 	return e.newError(st, "file already closed")
+}
+
+// lookupNamedOpt is lookupNamed without failing when the package or type is not loaded.
+func (e *Engine) lookupNamedOpt(pkg, name string) types.Type {
+	for _, p := range e.Prog.AllPackages() {
+		if p.Pkg.Path() == pkg {
+			if o := p.Pkg.Scope().Lookup(name); o != nil {
+				return o.Type()
+			}
+		}
+	}
+	return nil
+}
+
+// unwrapModelError: the one wrapper the model produces (*fs.PathError) unwraps to its Err field.
+func (e *Engine) unwrapModelError(st *State, v Value) (Value, bool) {
+	iv, ok := v.(IfaceV)
+	if !ok || iv.T == nil {
+		return nil, false
+	}
+	pt, ok := iv.T.(*types.Pointer)
+	if !ok {
+		return nil, false
+	}
+	if n, ok := pt.Elem().(*types.Named); ok && n.Obj().Name() == "PathError" && n.Obj().Pkg() != nil && n.Obj().Pkg().Path() == "io/fs" {
+		p := iv.V.(PtrV)
+		return e.load(st, PtrV{Obj: p.Obj, Path: []PathEl{{I: 2}}}), true
+	}
+	return nil, false
 }
